@@ -40,18 +40,21 @@ type Options struct {
 	SysEx, TimeCode, ActiveSense bool
 	BufSize                      uint32
 	Reversed                     bool // pass the options in the opposite order (the result must not depend on it)
+	Repeat                       int  // every class option is given Repeat more times (defaults and user options concatenated): switching a class on is idempotent
 }
 
 func (o Options) List() []midi.Option {
 	var l []midi.Option
-	if o.SysEx {
-		l = append(l, midi.UseSysEx())
-	}
-	if o.TimeCode {
-		l = append(l, midi.UseTimeCode())
-	}
-	if o.ActiveSense {
-		l = append(l, midi.UseActiveSense())
+	for r := 0; r <= o.Repeat; r++ {
+		if o.SysEx {
+			l = append(l, midi.UseSysEx())
+		}
+		if o.TimeCode {
+			l = append(l, midi.UseTimeCode())
+		}
+		if o.ActiveSense {
+			l = append(l, midi.UseActiveSense())
+		}
 	}
 	if o.BufSize != 0 {
 		l = append(l, midi.SysExBufferSize(o.BufSize))
